@@ -53,6 +53,8 @@
 //	              a local named type served by the function generated for a package-level type (F104)
 //	chandirs      send-only / receive-only / bidirectional channels at every level for dup, the three channel forms of join,
 //	              fmap over channels and pipeline (F93–F95)
+//	probes        list / memo plugins over element types that are only comparable at run time (interfaces): refused, or — if
+//	              accepted — the package's probe_test.go (dynamic values of non-comparable types) must pass under `go test`
 //	nonascii      well-typed, supported: type names of 1-3 non-ASCII letters (2-, 3- and 4-byte letters), the
 //	              same type name in two or three imported packages, with helper requests (or user functions)
 //	              that already took prefix, prefix_ and every letter prefix of the name, so that the fresh-name
@@ -1070,6 +1072,81 @@ type WC struct {
 		add(caseT{Family: "diagnostics", Plugin: v.pl, What: "interface-typed components that declare the method: " + v.typ, Call: fn,
 			Names: []string{fn, "IE", "IC", "WI", "WC", "interface"}, Unsupp: true}, map[string]string{"u.go": src})
 	}
+	// assertion-style Equal / Compare / Hash methods without a result, where the list plugins ask derive.HasEqualMethod
+	voidm := `type V1 struct{ A int }
+
+func (v V1) Equal(o V1) {}
+
+type V2 struct{ A int }
+
+func (v V2) Equal() {}
+
+type V3 struct{ A int }
+
+func (v V3) Equal(a, b V3) {}
+
+type V4 struct{ A int }
+
+func (v *V4) Equal(o *V4) {}
+
+type V5 struct{ A int }
+
+func (v V5) Equal(o V5) (bool, error) { return true, nil }
+
+type VS struct {
+	F V1
+	G [2]V1
+}
+`
+	for _, pl := range []string{"contains", "unique", "union", "intersect", "set", "equal", "hash", "compare", "mem"} {
+		for _, et := range []string{"V1", "V2", "V3", "V4", "*V4", "V5", "VS", "[2]V1", "struct{ F V1 }"} {
+			fn := prefixes[pl] + "Void"
+			var use string
+			switch pl {
+			case "contains":
+				use = "func Use(a []" + et + ") bool { return " + fn + "(a, a[0]) }"
+			case "unique", "set":
+				use = "func Use(a []" + et + ") { " + fn + "(a) }"
+			case "union", "intersect":
+				use = "func Use(a, b []" + et + ") { " + fn + "(a, b) }"
+			case "equal", "compare":
+				use = "func Use(a, b []" + et + ") { " + fn + "(a, b) }"
+			case "hash":
+				use = "func Use(a []" + et + ") { " + fn + "(a) }"
+			case "mem":
+				use = "func Use(f func(x " + et + ") int) { " + fn + "(f) }"
+			}
+			add(caseT{Family: "diagnostics", Plugin: pl, What: "element type with an assertion-style Equal method (no result / odd shape): " + et, Call: fn,
+				Names: []string{fn, "V1", "V2", "V3", "V4", "V5", "VS", "Equal"}, Unsupp: true}, map[string]string{"u.go": "package PKGDIR\n\n" + voidm + "\n" + use + "\n"})
+		}
+	}
+	// element types that are comparable only at run time: refused, or accepted AND safe (probe_test.go is run by the check)
+	for _, v := range []struct{ pl, what, use, probe string }{
+		{"unique", "slice of interface{}", "func Use(a []interface{}) []interface{} { return FN(a) }",
+			"\tif n := len(Use([]interface{}{[]int{1}, []int{1}, 1, 1})); n < 1 {\n\t\tt.Fatal(n)\n\t}"},
+		{"unique", "slice of error", "func Use(a []error) []error { return FN(a) }",
+			"\tif n := len(Use([]error{sliceErr{1}, sliceErr{1}, nil})); n < 1 {\n\t\tt.Fatal(n)\n\t}"},
+		{"unique", "slice of structs holding an interface", "type H struct{ I interface{} }\n\nfunc Use(a []H) []H { return FN(a) }",
+			"\tif n := len(Use([]H{{[]int{1}}, {[]int{1}}, {map[string]int{}}})); n < 1 {\n\t\tt.Fatal(n)\n\t}"},
+		{"unique", "slice of arrays of interface{}", "func Use(a [][1]interface{}) [][1]interface{} { return FN(a) }",
+			"\tif n := len(Use([][1]interface{}{{[]int{1}}, {[]int{1}}})); n < 1 {\n\t\tt.Fatal(n)\n\t}"},
+		{"mem", "function of an interface{} parameter", "func Use(f func(x interface{}) int) func(x interface{}) int { return FN(f) }",
+			"\tm := Use(func(x interface{}) int { return 1 })\n\tif m([]int{1})+m([]int{1})+m(map[string]int{}) != 3 {\n\t\tt.Fatal()\n\t}"},
+		{"mem", "function of an error parameter", "func Use(f func(x error) int) func(x error) int { return FN(f) }",
+			"\tm := Use(func(x error) int { return 1 })\n\tif m(sliceErr{1})+m(sliceErr{1}) != 2 {\n\t\tt.Fatal()\n\t}"},
+		{"contains", "slice of interface{}", "func Use(a []interface{}, x interface{}) bool { return FN(a, x) }",
+			"\t_ = Use([]interface{}{[]int{1}, 2}, []int{1})"},
+		{"set", "slice of interface{}", "func Use(a []interface{}) int { return len(FN(a)) }",
+			"\t_ = Use([]interface{}{[]int{1}, []int{1}})"},
+		{"union", "slices of interface{}", "func Use(a, b []interface{}) int { return len(FN(a, b)) }",
+			"\t_ = Use([]interface{}{[]int{1}}, []interface{}{[]int{1}})"},
+	} {
+		fn := prefixes[v.pl] + "Probe"
+		src := "package PKGDIR\n\ntype sliceErr []int\n\nfunc (sliceErr) Error() string { return \"e\" }\n\n" + strings.ReplaceAll(v.use, "FN", fn) + "\n"
+		probe := "package PKGDIR\n\nimport \"testing\"\n\n// dynamic values of non-comparable types must not make the generated code panic\nfunc TestProbe(t *testing.T) {\n" + v.probe + "\n}\n"
+		add(caseT{Family: "probes", Plugin: v.pl, What: v.what, Call: fn, Names: []string{fn, "interface", "error", "comparable", "H"}, Unsupp: true, Tag: "probe"},
+			map[string]string{"u.go": src, "probe_test.go": probe})
+	}
 	// unnamed struct with an embedded field (FieldStrings), private fields of an external struct (gostring)
 	for _, pl := range []string{"equal", "hash", "compare"} {
 		tp := pluginByName(pl)
@@ -1170,6 +1247,28 @@ func genGenerics(prefixes map[string]string) {
 		}
 		src = "package PKGDIR\n\n" + decls + "func Use(" + params(at) + ") {\n\t" + body + "\n}\n"
 		add(caseT{Family: "generics", Plugin: tp.name, What: "fully instantiated generic type: " + at, Call: fn, Names: []string{fn, "G[int]", "G"}, Unsupp: true}, map[string]string{"u.go": src})
+	}
+	// generic types whose instantiations never repeat (T[int] -> T[[]int] -> T[[][]int] …: go/types of current Go calls this an
+	// instantiation cycle, the loader's older go/types does not: the user file is broken, goderive must not hang, F121) and
+	// ordinary recursive / parameter-swapping ones, which are legal
+	endless := "type T[A any] struct {\n\tnext *T[[]A]\n\tv    A\n}\n\ntype U[A any] struct {\n\tkids []U[*A]\n\tm    map[string]U[[2]A]\n}\n\n"
+	legal := "type R[A any] struct {\n\tnext *R[A]\n\tv    []A\n}\n\ntype P[A, B any] struct {\n\tswap *P[B, A]\n\ta    A\n}\n\n"
+	for _, pl := range []string{"equal", "compare", "hash", "deepcopy", "clone", "gostring"} {
+		tp := pluginByName(pl)
+		for _, v := range []struct {
+			what, decls, typ string
+			userbad          bool
+		}{
+			{"endlessly unfolding generic struct", endless, "*T[int]", true}, {"endlessly unfolding through slices and maps", endless, "*U[string]", true},
+			{"slice of endlessly unfolding structs", endless, "[]T[bool]", true},
+			{"ordinary recursive generic struct", legal, "*R[int]", false}, {"generic struct that swaps its parameters", legal, "*P[int, string]", false},
+		} {
+			fn := prefixes[pl] + "Cyc"
+			params, body := tp.call(fn)
+			src := "package PKGDIR\n\n" + v.decls + "func Use(" + params(v.typ) + ") {\n\t" + body + "\n}\n"
+			add(caseT{Family: "generics", Plugin: pl, What: v.what + ": " + v.typ, Call: fn, Names: []string{fn, "T[", "U[", "R[", "P["}, Unsupp: !v.userbad, UserBad: v.userbad},
+				map[string]string{"u.go": src})
+		}
 	}
 	// function-consuming plugins with generic functions as arguments
 	gd := "func id[T any](x T) T { return x }\n\nfunc pair[T any](x T) (T, error) { return x, nil }\n\nfunc pred[T comparable](x T) bool { var z T; return x == z }\n\n"
@@ -1387,8 +1486,12 @@ func genSpreadConstMulti(prefixes map[string]string) {
 			if v.pl == "clone" {
 				tag = "untyped-constant:clone"
 			}
+			// a typed value next to an untyped constant it is assignable to: must generate and type-check (F113, F122);
+			// for compare / min / max only where the kind is ordered (bool and complex orders are goderive's own: F97)
+			mixed := strings.Contains(v.what, "variable and a constant") || strings.Contains(v.what, "constant and a variable") ||
+				strings.Contains(v.what, "constant default") || v.what == "constant item"
 			add(caseT{Family: "constants", Plugin: v.pl, What: "untyped " + c.kind + " constant, " + v.what + ": " + strings.Join(v.args, ", "), Call: fn,
-				Names: []string{fn, "untyped", "constant", "int", "float64", "bool", "string", "complex128", "rune", "int32", "int8"}, Unsupp: true, Tag: tag}, map[string]string{"u.go": src})
+				Names: []string{fn, "untyped", "constant", "int", "float64", "bool", "string", "complex128", "rune", "int32", "int8"}, Unsupp: !mixed, MustOK: mixed, Tag: tag}, map[string]string{"u.go": src})
 		}
 	}
 }
@@ -1400,6 +1503,27 @@ func varFor(kind string) string {
 
 func sliceFor(kind string) string {
 	return map[string]string{"bool": "bs", "int": "xs", "float": "fs", "complex": "cs", "rune": "rs", "string": "ss", "constant expression": "xs", "typed constant": "i8s"}[kind]
+}
+
+func genMinMaxConst(prefixes map[string]string) {
+	for _, pl := range []string{"min", "max"} {
+		fn := prefixes[pl]
+		for _, v := range []struct{ what, body string }{
+			{"one name for (fs, 0) and (fs, 0.5)", "_ = FN(fs, 0)\n\t_ = FN(fs, 0.5)"},
+			{"one name for (xs, 0) and (xs, y)", "_ = FN(xs, 0)\n\t_ = FN(xs, y)"},
+			{"two-value form with a constant", "_ = FNTwo(y, 0)\n\t_ = FNTwo(1, y)"},
+			{"two-value form, float variable and int constant", "_ = FNTwo(f, 2)"},
+			{"named element type and constants", "_ = FND(ds, 0)\n\t_ = FND(ds, 1)"},
+		} {
+			src := "package PKGDIR\n\ntype D int\n\nvar (\n\txs []int\n\tfs []float64\n\tds []D\n\ty  int\n\tf  float64\n)\n\nfunc Use() {\n\t" + strings.ReplaceAll(v.body, "FN", fn) + "\n}\n"
+			add(caseT{Family: "constants", Plugin: pl, What: v.what, Call: fn, Names: []string{fn}, MustOK: true}, map[string]string{"u.go": src})
+		}
+	}
+	for _, pl := range []string{"equal", "compare"} {
+		fn := prefixes[pl]
+		src := "package PKGDIR\n\nvar (\n\tf float64\n\ts string\n)\n\nfunc Use() {\n\t_ = " + fn + "(f, 2)\n\t_ = " + fn + "(3, f)\n\t_ = " + fn + "S(s, \"a\")\n}\n"
+		add(caseT{Family: "constants", Plugin: pl, What: "a typed value next to an untyped constant, both orders, one name", Call: fn, Names: []string{fn}, MustOK: true}, map[string]string{"u.go": src})
+	}
 }
 
 func genLocalTypes(prefixes map[string]string) {
@@ -1681,6 +1805,7 @@ func main() {
 	genUnresolved(prefixes)
 	genSpreadConstMulti(prefixes)
 	genLocalTypes(prefixes)
+	genMinMaxConst(prefixes)
 	genChanDirs(prefixes)
 	genGenerics(prefixes)
 	genNamedTypes(prefixes)
